@@ -264,7 +264,9 @@ def name_return(sig, ret):
         ty = sig[start:end].rstrip()
         ws = sig[start + len(ty):end]
         return sig[:start] + f'({ret}: {ty})' + ws + sig[end:]
-    return sig
+    # no return type: name the unit result (Verus applies an async fn's ensures at `.await` only when the result is named)
+    close = toks[toks[i].match].end
+    return sig[:close] + f' -> ({ret}: ())' + sig[close:]
 
 
 LOOP_KW = ('loop', 'while', 'for')
@@ -302,6 +304,74 @@ def find_loops(text):
             if found is not None:
                 res.append(found)
     return res
+
+
+def unfold_let_chains(text, log, qual):
+    """Rule R5: `if let P = E && C { A } [else { B }]` ->
+    `if let P = E { if C { A } [else { B }] } [else { B }]`  (B duplicated verbatim)."""
+    count = 0
+    while True:
+        toks = rustlex.lex(text)
+        sig = [i for i, t in enumerate(toks) if t.kind not in rustlex.SIG]
+        done = True
+        for pos, i in enumerate(sig):
+            t = toks[i]
+            if not (t.kind == 'ident' and t.text == 'if'):
+                continue
+            if pos + 1 >= len(sig) or toks[sig[pos + 1]].text != 'let':
+                continue
+            # scan to the block `{` at depth 0, remembering the first top-level `&&`
+            k = i + 1
+            and_tok = None
+            block = None
+            while k < len(toks):
+                tt = toks[k]
+                if tt.kind == 'punct' and tt.text in '([':
+                    k = tt.match + 1
+                    continue
+                if tt.kind == 'punct' and tt.text == '{':
+                    block = k
+                    break
+                if tt.kind == 'punct' and tt.text == '&' and k + 1 < len(toks) and toks[k + 1].text == '&' \
+                        and toks[k + 1].start == tt.end and and_tok is None:
+                    and_tok = k
+                    k += 2
+                    continue
+                k += 1
+            if block is None or and_tok is None:
+                continue
+            close = toks[block].match
+            head = text[toks[i].start:toks[and_tok].start].rstrip()      # `if let P = E`
+            cond = text[toks[and_tok + 1].end:toks[block].start].strip()  # `C`
+            a_blk = text[toks[block].start:toks[close].end]
+            # optional else
+            j = close + 1
+            while j < len(toks) and toks[j].kind in rustlex.SIG:
+                j += 1
+            else_blk = None
+            end = toks[close].end
+            if j < len(toks) and toks[j].kind == 'ident' and toks[j].text == 'else':
+                j2 = j + 1
+                while j2 < len(toks) and toks[j2].kind in rustlex.SIG:
+                    j2 += 1
+                if j2 < len(toks) and toks[j2].text == '{':
+                    else_blk = text[toks[j2].start:toks[toks[j2].match].end]
+                    end = toks[toks[j2].match].end
+                else:
+                    raise LostAnchor(f'{qual}: rule R5 does not handle `else if` after a let-chain')
+            if else_blk is None:
+                new = f'{head} {{ if {cond} {a_blk} }}'
+            else:
+                new = f'{head} {{ if {cond} {a_blk} else {else_blk} }} else {else_blk}'
+            text = text[:toks[i].start] + new + text[end:]
+            count += 1
+            done = False
+            break
+        if done:
+            break
+    if count:
+        log.append(dict(rule='R5', fn=qual, count=count, what='let-chain unfolded'))
+    return text
 
 
 class FnDirective:
@@ -376,6 +446,8 @@ def render_fn(d, log):
     if text.count('\x00') != 1:
         raise UnitError(f'{d.qual}: rewrite destroyed the signature/body boundary')
     sig, body = text.split('\x00')
+    if d.opts.get('letchains'):
+        body = unfold_let_chains(body, log, d.qual)
     if d.opts.get('ret'):
         sig = name_return(sig, d.opts['ret'])
     # loops (offsets in body)
@@ -449,6 +521,14 @@ def render_item(relpath, kind, name, opts, pre_lines, log):
             raise LostAnchor(f'struct {name}: kept field(s) {sorted(missing)} not found')
         text = text[:o + 1] + '\n' + ',\n'.join(kept) + ',\n' + text[c:]
         log.append(dict(rule='D4', item=name, pruned=pruned))
+    if kind == 'const' and opts.get('execconst'):
+        # rule R14: `const N: T = EXPR;` -> `exec const N: T <ensures...> { EXPR }` so the value gets a checked spec
+        m = re.match(r'(?s)^(.*?\bconst\s+[A-Za-z_][A-Za-z0-9_]*\s*:\s*[^=]+?)\s*=\s*(.*);\s*$', text)
+        if not m:
+            raise LostAnchor(f'const {name}: unexpected shape for rule R14')
+        text = m.group(1).replace('const ', 'exec const ', 1) + '\n' + '\n'.join(pre_lines) + '\n{ ' + m.group(2) + ' }'
+        pre_lines = []
+        log.append(dict(rule='R14', item=name, what='const initialiser turned into an exec const body with an ensures clause'))
     if opts.get('pub') and not re.match(r'\s*pub\b', text):
         text = 'pub ' + text
         log.append(dict(rule='D3', item=name, what='private item made pub'))
